@@ -118,21 +118,20 @@ func (g verifJGen) value(t *rapid.T, depth int) interface{} {
 // large (padded with long strings so that it spans several chunks).
 func verifJDoc(t *rapid.T, keys []string) (doc interface{}, class string) {
 	switch c := rapid.IntRange(0, 9).Draw(t, "sizeclass"); {
-	case c < 2:
+	case c < 1:
 		g := verifJGen{keys: keys, maxDepth: 4, maxWidth: 4}
 		return g.value(t, 0), "tiny"
-	case c < 4:
+	case c < 3:
 		g := verifJGen{keys: keys, maxDepth: 5, maxWidth: 6, padProb: 25, padMin: 20, padMax: 200}
 		if rapid.Bool().Draw(t, "topobj") {
 			return g.object(t, 0, 1), "mid"
 		}
 		return g.array(t, 0, 1), "mid"
 	default:
-		g := verifJGen{keys: keys, maxDepth: 5, maxWidth: 5, padProb: 55, padMin: 100, padMax: 700}
-		top := verifJGen{keys: keys, maxDepth: 5, maxWidth: rapid.IntRange(8, 30).Draw(t, "topwidth"), padProb: 55, padMin: 100, padMax: 700}
+		g := verifJGen{keys: keys, maxDepth: 5, maxWidth: 5, padProb: 55, padMin: 150, padMax: 1200}
+		n := rapid.IntRange(6, 40).Draw(t, "ntop")
 		if rapid.Bool().Draw(t, "topobj") {
 			m := make(map[string]interface{})
-			n := rapid.IntRange(6, top.maxWidth).Draw(t, "ntop")
 			for i := 0; i < n; i++ {
 				k := g.key(t)
 				if _, dup := m[k]; dup {
@@ -142,7 +141,6 @@ func verifJDoc(t *rapid.T, keys []string) (doc interface{}, class string) {
 			}
 			return m, "large"
 		}
-		n := rapid.IntRange(6, top.maxWidth).Draw(t, "ntop")
 		a := make([]interface{}, n)
 		for i := range a {
 			a[i] = g.value(t, 1)
